@@ -45,6 +45,12 @@ fn apply<const B: usize, const L: usize>(op: &str, a: Uint<B, L>, b: Uint<B, L>,
         "bitlen" => (U::<B, L>::wrapping_from(a.bit_len() as u64), false),
         "invring" => match a.inv_ring() { Some(x) => (x, true), None => (m, false) },
         "npow2" => match a.checked_next_power_of_two() { Some(x) => (x, true), None => (m, false) },
+        "rt_dec" => (U::<B, L>::from_str_radix(&a.to_string(), 10).unwrap(), false),
+        "rt_hex" => (format!("{a:#x}").parse::<U<B, L>>().unwrap(), false),
+        "rt_be" => (U::<B, L>::from_be_slice(&a.to_be_bytes_vec()), false),
+        "rt_le" => (U::<B, L>::try_from_le_slice(&a.to_le_bytes_trimmed_vec()).unwrap(), false),
+        "rt_limbs" => (U::<B, L>::from_limbs_slice(a.as_limbs()), false),
+        "via_u64" => (U::<B, L>::wrapping_from(a.wrapping_to::<u64>()), a.bit_len() > 64),
         "shl" => (a << k, false),
         "shr" => (a >> k, false),
         "ashr" => (a.arithmetic_shr(k), false),
